@@ -30,9 +30,14 @@ use vx::{guard, json, Ctx, Level};
 
 const PASSWORD: &str = "secure_password";
 
-/// Snapshot files live under the workspace's target directory (never under /tmp).
+/// Snapshot files live under the workspace's target directory (never under /tmp; `generate` refuses a directory
+/// under the system's temporary directory). A scratch copy of this workspace that itself lives under /tmp can
+/// point C15S_SNAPSHOT_DIR at a directory elsewhere; file names carry the process id.
 fn snapshot_dir() -> PathBuf {
-  PathBuf::from(concat!(env!("CARGO_MANIFEST_DIR"), "/../target/stronghold-tmp"))
+  match std::env::var_os("C15S_SNAPSHOT_DIR") {
+    Some(d) => PathBuf::from(d),
+    None => PathBuf::from(concat!(env!("CARGO_MANIFEST_DIR"), "/../target/stronghold-tmp")),
+  }
 }
 
 static FILES_CREATED: AtomicU64 = AtomicU64::new(0);
